@@ -496,7 +496,7 @@ Lemma breq_facts b hook s r :
   (b_crashed s = false -> b_crashed s1 = false /\ has_crash o = false).
 Proof.
   unfold breq. destruct (negb (b_active s)); [cbn; auto|].
-  destruct r; try (destruct hook); cbn; auto; apply stop_basic_facts.
+  destruct r; try (destruct hook); try (destruct (cmd_unreaped s)); cbn; auto; apply stop_basic_facts.
 Qed.
 
 Lemma breap_facts s i :
@@ -755,3 +755,251 @@ Lemma basic_kill_and_late_stop_leave_nothing :
   existsb child_live (b_children (fst (brun fkbeh false binit
      [ALaunch; ATimer; AReq RStart; AExit 0; AReap 0; AReq RStop]))) = false.
 Proof. vm_compute. split; reflexivity. Qed.
+
+(* ---------- a basic task never has two commands at once (repair of C17-l) ---------- *)
+Definition not_run (c : child) : bool := negb (is_run (ch_st c)).
+
+(* every child but the last one has been waited for *)
+Fixpoint abl (l : list child) : bool :=
+  match l with
+  | [] => true
+  | x :: r => match r with [] => true | _ => reaped x && abl r end
+  end.
+
+Lemma reaped_not_run c : reaped c = true -> not_run c = true.
+Proof. destruct c as [[] gc]; cbn; congruence. Qed.
+
+Lemma length_upd {A} i (x : A) l : length (upd i x l) = length l.
+Proof. revert i. induction l as [|y l IH]; intros [|i]; cbn; auto. Qed.
+
+Lemma upd_nil_iff {A} i (x : A) l : upd i x l = [] <-> l = [].
+Proof. destruct l, i; cbn; split; congruence. Qed.
+
+Lemma abl_upd l : forall i x,
+  abl l = true ->
+  (forall y, nth_error l i = Some y -> reaped y = true -> reaped x = true) ->
+  abl (upd i x l) = true.
+Proof.
+  induction l as [|y l IH]; intros i x HA HX; [destruct i; reflexivity|].
+  destruct i as [|i]; cbn [upd].
+  - cbn [abl] in *. destruct l; [reflexivity|].
+    apply andb_true_iff in HA. destruct HA as [HA1 HA2].
+    rewrite (HX y eq_refl HA1). exact HA2.
+  - cbn [abl] in *. destruct l as [|z l]; [destruct i; reflexivity|].
+    apply andb_true_iff in HA. destruct HA as [HA1 HA2].
+    specialize (IH i x HA2 HX).
+    destruct (upd i x (z :: l)) eqn:E.
+    + apply upd_nil_iff in E. discriminate.
+    + rewrite HA1. exact IH.
+Qed.
+
+Lemma forallb_upd {A} (f : A -> bool) l : forall i x,
+  forallb f l = true -> f x = true -> forallb f (upd i x l) = true.
+Proof.
+  induction l as [|y l IH]; intros [|i] x HF HX; cbn in *; auto;
+    apply andb_true_iff in HF; destruct HF as [H1 H2]; apply andb_true_iff; split; auto.
+Qed.
+
+Lemma abl_all l : forall c,
+  abl l = true -> nth_error l (pred (length l)) = Some c -> reaped c = true ->
+  forallb reaped l = true.
+Proof.
+  induction l as [|y l IH]; intros c HA HN HR; [reflexivity|].
+  destruct l as [|z l].
+  - cbn in HN. inversion HN; subst. cbn. rewrite HR. reflexivity.
+  - cbn [abl] in HA. apply andb_true_iff in HA. destruct HA as [HA1 HA2].
+    cbn [forallb]. rewrite HA1. cbn [andb]. apply (IH c HA2); [|exact HR]. exact HN.
+Qed.
+
+Lemma abl_cons y r : r <> [] -> abl (y :: r) = reaped y && abl r.
+Proof. destruct r; [congruence|reflexivity]. Qed.
+
+Lemma abl_app l x : forallb reaped l = true -> abl (l ++ [x]) = true.
+Proof.
+  induction l as [|y l IH]; intro HF; [reflexivity|].
+  cbn in HF. apply andb_true_iff in HF. destruct HF as [H1 H2].
+  cbn [app]. rewrite abl_cons by (destruct l; discriminate).
+  rewrite H1, (IH H2). reflexivity.
+Qed.
+
+Lemma abl_last_upd l : forall i x,
+  abl l = true -> i = pred (length l) -> l <> [] -> not_run x = true ->
+  forallb not_run (upd i x l) = true.
+Proof.
+  induction l as [|y l IH]; intros i x HA Hi Hne HX; [congruence|].
+  destruct l as [|z l].
+  - cbn in Hi. subst i. cbn. rewrite HX. reflexivity.
+  - cbn [abl] in HA. apply andb_true_iff in HA. destruct HA as [HA1 HA2].
+    cbn [length pred] in Hi. subst i. cbn [upd forallb].
+    rewrite (reaped_not_run _ HA1). cbn [andb].
+    apply IH; try assumption; [reflexivity|discriminate].
+Qed.
+
+Lemma ensure_killed_shape s :
+  let '(s1, o) := ensure_killed s in
+  b_cmd s1 = b_cmd s /\ b_launched s1 = b_launched s /\ b_active s1 = b_active s /\
+  ((b_cmd s = None /\ b_children s1 = b_children s) \/
+   (exists i, b_cmd s = Some i /\ nth_error (b_children s) i = None /\ b_children s1 = b_children s) \/
+   exists i c, b_cmd s = Some i /\ nth_error (b_children s) i = Some c /\
+               b_children s1 = upd i (kill_group c) (b_children s)).
+Proof.
+  unfold ensure_killed. rewrite stop_guards_nil.
+  destruct s as [la ac tm cmd ch pe bl cr]; cbn.
+  destruct cmd as [i|]; [|auto 10].
+  destruct (nth_error ch i) as [c|] eqn:En; [|repeat split; right; left; exists i; auto].
+  destruct (ch_st c), pe; cbn; repeat split; right; right; exists i, c; auto.
+Qed.
+
+Lemma nth_error_last_some {A} (l : list A) : l <> [] -> exists c, nth_error l (pred (length l)) = Some c.
+Proof.
+  induction l as [|y l IH]; intro H; [congruence|].
+  destruct l as [|z l]; [exists y; reflexivity|]. apply IH. discriminate.
+Qed.
+
+Lemma reaped_kill_group c : reaped c = true -> reaped (kill_group c) = true.
+Proof. destruct c as [[] gc]; cbn; congruence. Qed.
+Lemma not_run_kill_group c : not_run (kill_group c) = true.
+Proof. destruct c as [[] gc]; reflexivity. Qed.
+
+Definition binv2 (s : bst) : Prop :=
+  abl (b_children s) = true /\
+  (b_cmd s = None \/ (b_children s <> [] /\ b_cmd s = Some (pred (length (b_children s))))) /\
+  (b_active s = true -> b_cmd s = None -> b_children s = []) /\
+  (b_active s = false -> b_launched s = true -> forallb not_run (b_children s) = true) /\
+  (b_launched s = false -> b_active s = false /\ b_children s = [] /\ b_cmd s = None).
+
+(* what ensureBasicTaskKilled leaves behind, given the invariant *)
+Lemma ensure_killed_inv s s1 o1 :
+  binv2 s -> b_active s = true -> ensure_killed s = (s1, o1) ->
+  abl (b_children s1) = true /\ forallb not_run (b_children s1) = true /\
+  length (b_children s1) = length (b_children s) /\ b_cmd s1 = b_cmd s /\
+  b_launched s1 = b_launched s /\ b_active s1 = b_active s.
+Proof.
+  intros (HA & HC & HE & HK & HL) EA E.
+  pose proof (ensure_killed_shape s) as HF. rewrite E in HF.
+  destruct HF as (F1 & F2 & F3 & F4).
+  repeat split; try assumption.
+  - destruct F4 as [[_ F]|[(i & _ & _ & F)|(i & c & Fc & Fn & F)]]; rewrite F; try exact HA.
+    apply abl_upd; [exact HA|]. intros y Hy Hr. rewrite Fn in Hy. inv Hy. apply reaped_kill_group, Hr.
+  - destruct F4 as [[Fc F]|[(i & Fc & Fn & F)|(i & c & Fc & Fn & F)]]; rewrite F.
+    + rewrite (HE EA Fc). reflexivity.
+    + exfalso. destruct HC as [HC|[Hne HC]]; [congruence|].
+      rewrite HC in Fc. inv Fc. destruct (nth_error_last_some _ Hne) as [c Hc]. congruence.
+    + destruct HC as [HC|[Hne HC]]; [congruence|]. rewrite HC in Fc. inv Fc.
+      apply abl_last_upd; try assumption; [reflexivity|apply not_run_kill_group].
+  - destruct F4 as [[_ F]|[(i & _ & _ & F)|(i & c & _ & _ & F)]]; rewrite F; try reflexivity. apply length_upd.
+Qed.
+
+Lemma length_nil_iff {A B} (l : list A) (l1 : list B) : length l1 = length l -> (l1 = [] <-> l = []).
+Proof. destruct l, l1; cbn; intro H; split; intro; congruence. Qed.
+
+Lemma binv2_same_shape s s1 :
+  binv2 s -> abl (b_children s1) = true -> length (b_children s1) = length (b_children s) ->
+  b_cmd s1 = b_cmd s -> b_launched s1 = b_launched s -> b_active s1 = b_active s ->
+  (b_active s = false -> b_launched s = true -> forallb not_run (b_children s1) = true) ->
+  binv2 s1.
+Proof.
+  intros (HA & HC & HE & HK & HL) N1 N3 N4 N5 N6 N2. unfold binv2. rewrite N4, N5, N6, N3.
+  split; [exact N1|]. split.
+  { destruct HC as [HC|[Hne HC]]; [left; exact HC|right; split; [|exact HC]].
+    intro X. apply Hne. apply (length_nil_iff _ _ N3). exact X. }
+  split.
+  { intros Ea Hc. apply (length_nil_iff _ _ N3). apply HE; assumption. }
+  split; [exact N2|].
+  intro El. destruct (HL El) as (X1 & X2 & X3). repeat split; try assumption.
+  apply (length_nil_iff _ _ N3). exact X2.
+Qed.
+
+Lemma binv2_step b s a s' o : binv2 s -> bstep b false s a = (s', o) -> binv2 s'.
+Proof.
+  intros HI HS. unfold bstep in HS.
+  destruct (b_crashed s) eqn:Ecr; [inv HS; exact HI|].
+  pose proof HI as (HA & HC & HE & HK & HL).
+  assert (Hl : b_active s = true -> b_launched s = true).
+  { intro EA. destruct (b_launched s) eqn:EL; [reflexivity|]. destruct (HL eq_refl) as [X _]. congruence. }
+  destruct a; try (inv HS; exact HI).
+  - (* ALaunch *)
+    destruct (b_launched s) eqn:EL; inv HS; [exact HI|].
+    destruct (HL eq_refl) as (Ha & Hc & Hm). unfold binv2; cbn. rewrite Hc.
+    repeat split; auto; try discriminate.
+  - (* AKill *)
+    destruct (b_active s) eqn:EA; [|inv HS; exact HI].
+    change (if false then (s, @nil out) else ensure_killed s) with (ensure_killed s) in HS.
+    destruct (ensure_killed s) as [s1 o1] eqn:E.
+    destruct (ensure_killed_inv s s1 o1 HI EA E) as (N1 & N2 & N3 & N4 & N5 & N6).
+    destruct (b_crashed s1); [assert (s' = s1) by (inversion HS; reflexivity); subst s'; clear HS|inv HS].
+    + apply (binv2_same_shape s s1 HI N1 N3 N4 N5 N6). intro X. congruence.
+    + unfold binv2; cbn. rewrite N5, (Hl eq_refl).
+      split; [exact N1|]. split; [left; reflexivity|]. split; [intro; discriminate|].
+      split; [intros _ _; exact N2|]. intro; discriminate.
+  - (* AReq *)
+    unfold breq in HS. destruct (b_active s) eqn:EA; cbn in HS; [|inv HS; exact HI].
+    destruct r; try (inv HS; exact HI).
+    + (* START *)
+      destruct (cmd_unreaped s) eqn:EU; inv HS; [exact HI|].
+      unfold binv2, start_child; cbn. rewrite EA.
+      assert (Hall : forallb reaped (b_children s) = true).
+      { destruct HC as [HC|[Hne HC]].
+        - rewrite (HE eq_refl HC). reflexivity.
+        - destruct (nth_error_last_some _ Hne) as [c Hc].
+          unfold cmd_unreaped in EU. rewrite HC, Hc in EU.
+          apply (abl_all _ c HA Hc). destruct (reaped c); [reflexivity|discriminate]. }
+      split; [apply abl_app, Hall|]. split.
+      { right. split; [destruct (b_children s); discriminate|]. rewrite app_length. cbn. f_equal. lia. }
+      split; [intros _ X; discriminate X|]. split; [intro X; discriminate X|].
+      intro X. rewrite (Hl eq_refl) in X. discriminate X.
+    + (* STOP *)
+      unfold stop_basic in HS. destruct (ensure_killed s) as [s1 o1] eqn:E.
+      destruct (ensure_killed_inv s s1 o1 HI EA E) as (N1 & N2 & N3 & N4 & N5 & N6).
+      assert (s' = s1) by (destruct (b_crashed s1); inv HS; reflexivity). subst s'.
+      apply (binv2_same_shape s s1 HI N1 N3 N4 N5 N6). intro X. congruence.
+  - (* ATimer *)
+    destruct (b_timer s); inv HS; exact HI.
+  - (* AExit *)
+    destruct (nth_error (b_children s) i) as [[st gc]|] eqn:En; [|inv HS; exact HI].
+    destruct st; inv HS; try exact HI.
+    apply (binv2_same_shape s); try assumption; try reflexivity; unfold set_children; cbn.
+    + apply abl_upd; [exact HA|]. intros y Hy Hr. rewrite En in Hy. inv Hy. discriminate Hr.
+    + apply length_upd.
+    + intros Ea El. apply forallb_upd; [apply HK; assumption|reflexivity].
+  - (* AReap *)
+    unfold breap in HS.
+    destruct (nth_error (b_children s) i) as [[st gc]|] eqn:En; [|inv HS; exact HI].
+    destruct st; try (inv HS; exact HI).
+    assert (HX : binv2 (set_children s (upd i (mkChild (PReaped d) gc) (b_children s)))).
+    { apply (binv2_same_shape s); try assumption; try reflexivity; unfold set_children; cbn.
+      + apply abl_upd; [exact HA|]. intros; reflexivity.
+      + apply length_upd.
+      + intros Ea El. apply forallb_upd; [apply HK; assumption|reflexivity]. }
+    cbn in HS. destruct (b_pending s); inv HS; exact HX.
+Qed.
+
+Lemma binv2_init : binv2 binit.
+Proof. unfold binv2; cbn. repeat split; auto; discriminate. Qed.
+
+Lemma binv2_run b l : forall s, binv2 s -> binv2 (fst (brun b false s l)).
+Proof.
+  induction l as [|a l IH]; intros s HI; cbn; [exact HI|].
+  destruct (bstep b false s a) as [s1 o1] eqn:E1.
+  specialize (IH s1 (binv2_step _ _ _ _ _ HI E1)).
+  destruct (brun b false s1 l). exact IH.
+Qed.
+
+(* whatever the history (repeated STARTs included): a basic task has at most one command that has
+   not been waited for, and once the task has been killed none of its processes is running *)
+Lemma basic_killed_leaves_nothing_running b l :
+  let s := fst (brun b false binit l) in
+  abl (b_children s) = true /\
+  (b_launched s = true -> b_active s = false -> forallb not_run (b_children s) = true).
+Proof.
+  cbn. destruct (binv2_run b l binit binv2_init) as (HA & _ & _ & HK & _).
+  split; [exact HA|]. intros; apply HK; assumption.
+Qed.
+
+(* START while the previous command has not been waited for: refused, nothing started *)
+Lemma basic_start_refused b s s' o :
+  b_crashed s = false -> b_active s = true -> cmd_unreaped s = true ->
+  bstep b false s (AReq RStart) = (s', o) -> s' = s /\ o = [OResp RStart false].
+Proof.
+  intros Hc Ha Hu HS. unfold bstep, breq in HS. rewrite Hc, Ha, Hu in HS. cbn in HS. inv HS. auto.
+Qed.
